@@ -39,6 +39,10 @@ pub struct Case {
     pub prog: Program,
     pub victim: usize,
     pub faults: Vec<Fault>,
+    /// Some(n): no injection — the whole program runs in a driver process whose cache directory
+    /// is a tmpfs of n KiB mounted in a private mount namespace (the disk really is full)
+    #[serde(default)]
+    pub tiny_fs_kib: Option<u32>,
 }
 
 pub struct C13;
@@ -102,7 +106,8 @@ fn victims() -> Vec<(&'static str, Op, bool)> {
 }
 
 fn scenario(op: &Op, fl: Fl, blob_len: usize) -> (Program, usize) {
-    let keys = vec!["fresh".to_string(), "présent".to_string(), "bystander".to_string()];
+    // key 0: multi-byte characters on every even byte offset (nothing may slice it blindly)
+    let keys = vec![format!("a{}", "é".repeat(200)), "présent".to_string(), "bystander".to_string()];
     let blobs = vec![Blob::new(blob_len, 41), Blob::new(300, 42), Blob::new(17, 43)];
     let steps = vec![
         Step { op: Op::Write(WriteSpec::simple(Some(1), 1)), fl: Fl::Sync },
@@ -309,6 +314,27 @@ impl Engine for C13 {
     }
     fn exhaustive(&self, tier: Tier) -> Vec<Case> {
         let mut out = Vec::new();
+        out.extend(tiny_fs_cases());
+        // the temp area on another filesystem: publication by rename is impossible there; whatever
+        // the implementation does instead must stay truthful under a fault
+        for fl in [Fl::Sync, Fl::Async] {
+            for keyed in [true, false] {
+                let mut w = WriteSpec::simple(if keyed { Some(0) } else { None }, 0);
+                w.entry = WEntry::Opts;
+                w.chunks = vec![20000];
+                let (mut prog, _) = scenario(&Op::Write(w), fl, 70000);
+                prog.steps.insert(2, Step { op: Op::TmpElsewhere, fl: Fl::Sync });
+                let victim = 3;
+                if let Ok(gates) = trace_gates(&prog, victim) {
+                    for (i, g) in gates.iter().enumerate() {
+                        out.push(Case { prog: prog.clone(), victim, faults: vec![Fault { gate: i, kind: FaultKind::Errno(applicable(g, if i % 2 == 0 { EIO } else { ENOSPC })) }], tiny_fs_kib: None });
+                        if g.is_write_class() && g.count().unwrap_or(0) >= 2 {
+                            out.push(Case { prog: prog.clone(), victim, faults: vec![Fault { gate: i, kind: FaultKind::ShortThenFail(20000) }], tiny_fs_kib: None });
+                        }
+                    }
+                }
+            }
+        }
         let errnos_quick = [EIO, ENOSPC];
         let errnos_full = [EIO, ENOSPC, EDQUOT, EACCES, EMFILE];
         for (vi, (_name, op, _)) in victims().into_iter().enumerate() {
@@ -340,11 +366,11 @@ impl Engine for C13 {
                             }
                         };
                         for e in errs {
-                            out.push(Case { prog: prog.clone(), victim, faults: vec![Fault { gate: i, kind: FaultKind::Errno(e) }] });
+                            out.push(Case { prog: prog.clone(), victim, faults: vec![Fault { gate: i, kind: FaultKind::Errno(e) }], tiny_fs_kib: None });
                         }
                         if g.is_write_class() && g.count().unwrap_or(0) >= 2 {
                             for sel in [1u16, 30000] {
-                                out.push(Case { prog: prog.clone(), victim, faults: vec![Fault { gate: i, kind: FaultKind::ShortThenFail(sel) }] });
+                                out.push(Case { prog: prog.clone(), victim, faults: vec![Fault { gate: i, kind: FaultKind::ShortThenFail(sel) }], tiny_fs_kib: None });
                             }
                         }
                     }
@@ -358,6 +384,7 @@ impl Engine for C13 {
                                         prog: prog.clone(),
                                         victim,
                                         faults: vec![Fault { gate: i, kind: FaultKind::Errno(EIO) }, Fault { gate: j, kind: FaultKind::Errno(applicable(&gates[j], ENOSPC)) }],
+                                        tiny_fs_kib: None,
                                     });
                                 }
                             }
@@ -370,7 +397,7 @@ impl Engine for C13 {
     }
     fn exhaustive_note(&self, tier: Tier) -> String {
         format!(
-            "{} victim operations x 2 flavours: every filesystem system call of the operation x {} (plus short-write-then-ENOSPC on every data / index write{})",
+            "really full disks (tmpfs of 256 KiB / 1 MiB in a private mount namespace) x 6 write shapes x 2 flavours; writes with the temp area on another filesystem x every call x EIO; {} victim operations x 2 flavours: every filesystem system call of the operation x {} (plus short-write-then-ENOSPC on every data / index write{})",
             victims().len(),
             tier.pick("EIO and one class-specific errno", "every applicable errno of {EIO, ENOSPC, EDQUOT, EACCES, EMFILE}"),
             tier.pick("", "; a quarter of all fault pairs i<j")
@@ -406,7 +433,7 @@ impl Engine for C13 {
                 let mut faults: Vec<Fault> = faults.into_iter().map(|(gate, kind)| Fault { gate, kind }).collect();
                 faults.sort_by_key(|f| f.gate);
                 faults.dedup_by_key(|f| f.gate);
-                Case { prog, victim, faults }
+                Case { prog, victim, faults, tiny_fs_kib: None }
             })
             .boxed()
     }
@@ -414,6 +441,9 @@ impl Engine for C13 {
         300
     }
     fn run_case(&self, c: &Case, st: &mut Stats, env: &mut WorkerEnv) -> Result<(), String> {
+        if let Some(kib) = c.tiny_fs_kib {
+            return run_tiny_fs(c, kib, st, env);
+        }
         env.scratch.reset();
         let prog = &c.prog;
         let ctx = Ctx::new(env.scratch.cache.clone(), env.scratch.scratch.clone(), &prog.keys, &prog.blobs);
@@ -507,4 +537,108 @@ impl Engine for C13 {
         }
         Ok(())
     }
+}
+
+/// Programs for a really full disk: a small write, the victim (larger than the filesystem), then
+/// lookups and another small write.
+fn tiny_fs_cases() -> Vec<Case> {
+    let mut out = Vec::new();
+    for (kib, len) in [(256u32, 300_000usize), (1024, 1_500_000)] {
+        for fl in [Fl::Sync, Fl::Async] {
+            for (entry, keyed, declare) in [
+                (WEntry::OneShot, true, Declare::None),
+                (WEntry::OneShot, false, Declare::None),
+                (WEntry::Opts, true, Declare::Exact),
+                (WEntry::Opts, false, Declare::Exact),
+                (WEntry::Opts, true, Declare::None),
+                (WEntry::CreateAlgo, true, Declare::None),
+            ] {
+                let mut v = WriteSpec::simple(if keyed { Some(0) } else { None }, 0);
+                v.entry = entry;
+                v.declare = declare;
+                if v.streamed() {
+                    v.chunks = vec![len / 3, len / 3];
+                }
+                let keys = vec!["too-big".to_string(), "small-before".to_string(), "small-after".to_string()];
+                let blobs = vec![Blob::new(len, 5), Blob::new(100, 6), Blob::new(50, 7)];
+                let steps = vec![
+                    Step { op: Op::Write(WriteSpec::simple(Some(1), 1)), fl: Fl::Sync },
+                    Step { op: Op::Write(v), fl },
+                    Step { op: Op::Meta { key: 0 }, fl: Fl::Sync },
+                    Step { op: Op::Read { key: 1 }, fl },
+                    Step { op: Op::Write(WriteSpec::simple(Some(2), 2)), fl },
+                    Step { op: Op::Read { key: 2 }, fl: Fl::Sync },
+                    Step { op: Op::List, fl: Fl::Sync },
+                ];
+                out.push(Case { prog: Program { keys, blobs, steps }, victim: 1, faults: vec![], tiny_fs_kib: Some(kib) });
+            }
+        }
+    }
+    out
+}
+
+fn run_tiny_fs(c: &Case, kib: u32, st: &mut Stats, env: &mut WorkerEnv) -> Result<(), String> {
+    env.scratch.reset();
+    let prog = &c.prog;
+    let pf = env.scratch.root.join("prog.json");
+    std::fs::write(&pf, serde_json::to_string(prog).unwrap()).map_err(|e| format!("INFRA: {e}"))?;
+    let of = env.scratch.root.join("out.jsonl");
+    let _ = std::fs::remove_file(&of);
+    let mut cmd = crate::sup::driver_cmd(&env.scratch.cache, &env.scratch.scratch, &pf, 0, prog.steps.len(), &of);
+    cmd.pop(); // no markers
+    // unshare -m sh -c 'mount -t tmpfs -o size=Nk tmpfs "$0" && exec "$@"' <cache> driver exec ...
+    let script = format!("mount -t tmpfs -o size={kib}k tmpfs \"$0\" && exec \"$@\"");
+    let o = std::process::Command::new("unshare")
+        .arg("-m")
+        .arg("sh")
+        .arg("-c")
+        .arg(&script)
+        .arg(&env.scratch.cache)
+        .args(&cmd)
+        .stdin(std::process::Stdio::null())
+        .stdout(std::process::Stdio::null())
+        .stderr(std::process::Stdio::piped())
+        .output();
+    let o = match o {
+        Ok(o) => o,
+        Err(_) => {
+            st.class("tiny_fs_unavailable");
+            return Ok(());
+        }
+    };
+    let err = String::from_utf8_lossy(&o.stderr).to_string();
+    if err.contains("unshare") && err.contains("Operation not permitted") || err.contains("mount:") {
+        // no privilege for a private mount: this family cannot run here
+        st.class("tiny_fs_unavailable");
+        return Ok(());
+    }
+    let what = format!("on a really full {kib} KiB filesystem, {:?} [{:?}]", prog.steps[1].op, prog.steps[1].fl);
+    if !o.status.success() {
+        return Err(format!("{what}: the process ended abnormally ({:?}) {}", o.status, err.chars().take(300).collect::<String>()));
+    }
+    let outs = crate::sup::read_outs(&of)?;
+    let keys = prog.keys.clone();
+    let ctx = Ctx::new(env.scratch.cache.clone(), env.scratch.scratch.clone(), &keys, &prog.blobs);
+    let mut model = Model::new();
+    model.pure = true;
+    for (i, o, t0, t1) in &outs {
+        st.eval(1);
+        if *i == c.victim {
+            // larger than the filesystem: it cannot succeed; it must fail with an error
+            match o {
+                Out::Err(ErrKind::Io { .. }, _) => continue,
+                other => return Err(format!("{what}: expected an I/O error, got {}", other.short())),
+            }
+        }
+        model.step(&ctx, &prog.steps[*i], o, *t0, *t1).map_err(|e| format!("{what}; then {}: {e}", basic::describe_step(prog, *i)))?;
+    }
+    if outs.len() != prog.steps.len() {
+        return Err(format!("{what}: only {} of {} steps produced a result", outs.len(), prog.steps.len()));
+    }
+    st.class("really_full_disk");
+    st.class("fault_delivered");
+    st.class("nontrivial");
+    st.nontrivial(hash_of(c));
+    st.sample(|| serde_json::json!({"tiny_fs_kib": kib, "victim": prog.steps[1]}));
+    Ok(())
 }
